@@ -559,9 +559,13 @@ def mt6(F, R):
     if ok:
         k = nkey(somes[0][0][3][0])
         ok = isinstance(k, tuple) and k[0] == "call" and k[1].endswith("Bpb::fs_info")
-        g32, _ = guarded(fn, somes[0][1], lambda g: "fat_type" in tstr(g.term) and ((g.kind == "variant" and g.variant == "Fat32") or (g.kind == "value" and g.value == F.variant_index("fat::FatType", "Fat32"))))
-        g16, _ = guarded(fn, nones[0][1], lambda g: "fat_type" in tstr(g.term) and ((g.kind == "variant" and g.variant == "Fat16") or (g.kind == "value" and g.value == F.variant_index("fat::FatType", "Fat16"))))
-        ok = ok and g32 and g16
+        # decided per value of self.fat_type (match, if ==, matches! alike)
+        from .ev import specialise_enum
+        is_ft = lambda t_: strip_refs(t_)[0] == "place" and last_field(strip_refs(t_)) == "fat_type"
+        vs_ = F.variants("fat::FatType")
+        r32 = fn.reach([0], cut_edges=specialise_enum(fn, is_ft, vs_, "Fat32"))
+        r16 = fn.reach([0], cut_edges=specialise_enum(fn, is_ft, vs_, "Fat16"))
+        ok = ok and somes[0][1] in r32 and nones[0][1] not in r32 and nones[0][1] in r16 and somes[0][1] not in r16
     R.require(ok, fn, "fs_info_block", "fs_info_block() must be Some(BlockCount(fs_info())) for FAT32 and None for FAT16; got %s" % [tstr(t) for t, _ in alts], fn.loc(0))
     fn = F.fn("fat::bpb::Bpb::total_clusters")
     rets = [fn.term_of_rvalue(d[3], d[1]) if d[0] == "assign" else fn.call_term(d[2], d[1]) for d in fn.defs().get(0, [])]
@@ -777,6 +781,20 @@ def lf8(F, R):
             rets = [c.term_of_rvalue(d[3], d[1]) if d[0] == "assign" else c.call_term(d[2], d[1]) for d in c.defs().get(0, [])]
             okt = len(rets) == 1 and rets[0][0] == "bin" and rets[0][1] == "Eq" and rets[0][3][:2] == ("c", 0) and strip_refs(rets[0][2])[0] in ("place", "arg") and not [1 for bb in c.live_blocks() if c.term(bb)["k"] == "SwitchInt"]
     R.require(okt, fn, "terminator", "the fragment must be cut at the first unit equal to 0x0000 and at nothing else", fn.loc(pos[0][0]) if pos else fn.loc(0))
+    if len(pos) == 1:
+        # ... searched in all 13 units (a 12-character tail has its terminator in the last one)
+        src_ = strip_refs(fn.term_of_operand(pos[0][1]["args"][0], pos[0][0]))
+        for _k in range(6):
+            if src_[0] == "var":
+                ds_ = var_def_terms(fn, src_[1])
+                src_ = strip_refs(ds_[0]) if len(ds_) == 1 else src_
+            if src_[0] == "call" and src_[1] and src_[1].split("::")[-1] in ("iter", "into_iter", "deref", "copied", "cloned", "as_slice") and src_[2]:
+                src_ = strip_refs(src_[2][0])
+            elif src_[0] == "place" and all(e == "*" for e in src_[2]):
+                src_ = strip_refs(src_[1])
+            else:
+                break
+        R.require(src_[:2] == ("arg", 2), fn, "terminator-whole-fragment", "the 0x0000 terminator is searched in %s, not in the whole 13-unit fragment: a terminator in a slot left out is decoded as a U+0000 character of the name" % tstr(src_)[:80], fn.loc(pos[0][0]))
     # the decode loop
     loops = [(h, body, backs) for (h, body, backs) in fn.loops() if any(fn.term(b)["k"] == "Call" and (callee_of(fn.term(b)) or "").endswith("Iterator::next") and "DecodeUtf16" in fn.term(b).get("callee_full", "") for b in body)]
     R.require(len(loops) == 1, fn, "decode-loop", "expected one loop over the decoder", fn.loc(0))
@@ -934,11 +952,12 @@ def sk6(F, R):
     loops = [l for l in fn.loops() if any(fn.term(b)["k"] == "Call" and call_matches(fn.term(b), ("FatVolume::next_cluster",)) for b in l[1])]
     R.require(len(loops) == 1, fn, "walk-loop", "expected one chain-walk loop in find_data_on_disk", fn.loc(0))
     for loop in loops:
-        adv = [(b, i) for b, i, s in fn.stmts() if b in loop[1] and s["k"] == "Assign" and s["p"]["l"] == 3 and len(s["p"]["proj"]) == 2 and s["p"]["proj"][0][0] == "deref" and s["p"]["proj"][1][0] == "field" and s["p"]["proj"][1][1] == 0]
+        from .rules_walk import arg_field_store
+        adv = [(b, i) for b, i, s in fn.stmts() if b in loop[1] and arg_field_store(s, 3, 0, fn)]
         R.require(len(adv) == 1, fn, "advance-site", "expected one cursor-offset advance in the walk loop, found %d" % len(adv), fn.loc(loop[0]))
         for (b, i) in adv:
             R.require(_in_iteration_after(fn, b, g_try_ok("FatVolume::next_cluster"), loop), fn, "advance-after-link", "the cursor offset is advanced before this trip's next_cluster has succeeded: when the chain ends here the caller is left with an offset one cluster ahead of the cluster it names, and the extension that follows writes into the old last cluster", fn.loc(b, i))
-            st1 = [(bb, ii) for bb, ii, s in fn.stmts() if bb in loop[1] and s["k"] == "Assign" and s["p"]["l"] == 3 and len(s["p"]["proj"]) == 2 and s["p"]["proj"][1][0] == "field" and s["p"]["proj"][1][1] == 1]
+            st1 = [(bb, ii) for bb, ii, s in fn.stmts() if bb in loop[1] and arg_field_store(s, 3, 1, fn)]
             R.require(len(st1) == 1 and (fn.dominates(st1[0][0], b) or st1[0][0] == b), fn, "cluster-before-offset", "the new cluster must be stored before the offset is advanced", fn.loc(b, i))
     rd = F.fn(VM + "::read")
     loops = [l for l in rd.loops() if any(rd.term(b)["k"] == "Call" and call_matches(rd.term(b), ("BlockCache::read",)) for b in l[1])]
@@ -1069,13 +1088,34 @@ def _nc_outcome(F, rv):
     return ("?", repr(rv)[:60])
 
 
+def _clo_key(ty):
+    if "{closure@" not in ty:
+        return None
+    k = ty[ty.index("{closure@"):]
+    return k[:k.index("}") + 1]
+
+
+def _every_walk_gets(outer, cls):
+    """each iterate_fat16 / iterate_fat32 call of `outer` is handed one of the closures `cls` (one closure per FAT type, or one
+    closure built once and given to whichever walk runs)"""
+    keys = {_clo_key(c.locals[1]["ty"]) for c in cls}
+    walks = [(b, t) for b, t in outer.calls() if (callee_of(t) or "").endswith(("::iterate_fat16", "::iterate_fat32"))]
+    if not walks or not cls:
+        return False
+    for b, t in walks:
+        got = {_clo_key(outer.locals[a["p"]["l"]]["ty"]) for a in t["args"] if a.get("p")} - {None}
+        if not (got & keys):
+            return False
+    return {(callee_of(t) or "").split("::")[-1] for b, t in walks} == {"iterate_fat16", "iterate_fat32"}
+
+
 @rule("LS6", ["C06", "C17"], floor=4,
       doc="the long-name-aware listing reports every short entry exactly once: in both per-entry closures of iterate_dir_lfn, whenever the slot is not a long-name fragment (lfn_contents() is None) the user's callback is invoked on every path - with the long name only under Complete && checksum match, with None otherwise - and never for a fragment")
 def ls6(F, R):
     outer = F.fn(FATVOL + "::iterate_dir_lfn")
     cls = F.closures_of(outer)
     cls = [c for c in cls if any((callee_of(t) or "").endswith("lfn_contents") for b, t in c.calls())]
-    R.require(len(cls) == 2, outer, "closures", "expected one per-entry closure per FAT type in iterate_dir_lfn, found %d" % len(cls), outer.loc(0))
+    R.require(_every_walk_gets(outer, cls), outer, "closures", "every directory walk started by iterate_dir_lfn (iterate_fat16 / iterate_fat32) must be given a per-entry closure that looks at lfn_contents(); found %d such closures" % len(cls), outer.loc(0))
     for c in cls:
         key = c.npath.split("::")[-1]
         # calls of the user's callback: call through the captured FnMut (callee is a type parameter / call_mut)
@@ -1302,7 +1342,9 @@ import re as _re
 
 _PASS_THROUGH = ("DerefMut::deref_mut", "IndexMut::index_mut", "chunks_exact_mut", "chunks_mut", "iter_mut", "Iterator::next", "Iterator::enumerate", "enumerate",
                  "Iterator::peekable", "peekable", "Peekable::peek_mut", "peek_mut", "split_at_mut", "IntoIterator::into_iter", "into_iter", "AsMut::as_mut", "as_mut_slice",
-                 "Iterator::skip", "Iterator::take", "Iterator::rev", "Iterator::zip", "Iterator::step_by", "first_mut", "last_mut", "get_mut", "Option::unwrap", "Option::expect")
+                 "Iterator::skip", "Iterator::take", "Iterator::rev", "Iterator::zip", "Iterator::step_by", "first_mut", "last_mut", "get_mut", "Option::unwrap", "Option::expect",
+                 # moving a slice *reference* around changes no byte: mem::take / replace / swap of a `&mut [u8]` variable, splitting
+                 "mem::take", "mem::replace", "mem::swap", "split_first_mut", "split_last_mut", "split_at_mut_checked", "Option::take")
 
 
 def _is_block_mut_ty(ty):
@@ -1346,6 +1388,197 @@ BLOCK_MUTATORS = {
     "volume_mgr::VolumeManager::write": {"copy_from_slice"},                   # the caller's bytes into the data block
     "volume_mgr::VolumeManager::read": {"copy_from_slice"},                    # the data block into the caller's buffer
 }
+
+
+@rule("HN1", ["C16", "C05"], floor=2,
+      doc="the next-free hint only ever moves to a cluster that was just freed: in free_cluster_chain and truncate_cluster_chain every value stored into next_free_cluster is built from the old hint and the cluster whose FAT entry the same walk has just set to EMPTY - never from the chain's start argument or another number (cluster 0 of an empty file is not a cluster of the volume; the FSInfo hint must be 0xFFFFFFFF or a cluster inside it)")
+def hn1(F, R):
+    n = 0
+    for name in ("free_cluster_chain", "truncate_cluster_chain"):
+        fn = F.fn(FATVOL + "::" + name)
+        freed = []
+        for b, t in fn.calls():
+            if call_matches(t, ("FatVolume::update_fat",)):
+                val = fn.term_of_operand(t["args"][3], b)
+                if val[0] == "c" and val[2] and val[2].endswith("ClusterId::EMPTY"):
+                    freed.append((b, strip_refs(fn.term_of_operand(t["args"][2], b))))
+        for b, i, s_ in fn.stmts():
+            if s_["k"] != "Assign" or not s_["p"]["proj"]:
+                continue
+            dst = fn.term_of_place(s_["p"])
+            if "next_free_cluster" not in tstr(dst):
+                continue
+            n += 1
+            v = fn.term_of_rvalue(s_["rv"], b)
+            # leaves of the stored value: old hint payloads and cluster terms (one level of local definitions looked through)
+            leaves, work, seen = [], [v], set()
+            while work:
+                x = strip_refs(work.pop())
+                if x[0] == "var" and x[1] not in seen and not any(x == f_[1] for f_ in freed):
+                    seen.add(x[1])
+                    ds = var_def_terms(fn, x[1])
+                    if ds:
+                        work += ds
+                        continue
+                if x[0] in ("var", "arg") or (x[0] == "place" and strip_refs(x[1])[0] in ("var", "arg")):
+                    leaves.append(x)
+                elif x[0] in ("agg",):
+                    work += list(x[3])
+                elif x[0] == "call":
+                    if x[1] and path_matches(x[1], "FatVolume::next_cluster"):
+                        continue            # a link read from the chain being released: a cluster of that chain (freed by this walk)
+                    work += list(x[2])
+                elif x[0] in ("bin",):
+                    work += [x[2], x[3]]
+                elif x[0] == "place":
+                    work.append(x[1])
+            bad = []
+            for l_ in leaves:
+                if "next_free_cluster" in tstr(l_):
+                    continue
+                root = l_
+                while root[0] == "place":
+                    root = strip_refs(root[1])
+                if any(root == f_[1] or l_ == f_[1] for f_ in freed):
+                    continue
+                bad.append(tstr(l_)[:40])
+            R.require(not bad and bool(freed), fn, name + ":hint-source", "the next-free hint is set from %s, which is not the cluster this walk has just freed: for a chain that frees nothing (an empty file's start cluster 0) the hint leaves the volume" % (bad or "nothing freed"), fn.loc(b, i))
+    R.require(n >= 2, None, "sites", "expected the hint to be lowered in free_cluster_chain and truncate_cluster_chain, found %d stores" % n)
+
+
+@rule("EN1", ["C06", "C03", "C02"], floor=2,
+      doc="slot classification depends on the first name byte only: OnDiskDirEntry::is_end() is exactly data[0] == 0x00 and is_valid() exactly data[0] not in {0x00, 0xE5}, for every value of that byte and whatever the other 31 bytes hold (evaluated for all 256 values with the rest of the slot unknown) - listing, lookup, delete and the free-slot search all stop / skip / reuse slots by these two predicates")
+def en1(F, R):
+    from .absint import Interp, State, Undecided
+    from .absval import const, sym_int, arr, ptr, is_int, int_const
+    adt = "fat::ondiskdirentry::OnDiskDirEntry"
+    for name, spec_ in (("is_end", lambda v: v == 0), ("is_valid", lambda v: v not in (0, 0xE5))):
+        fn = F.fn(adt + "::" + name)
+        bad = None
+        try:
+            for v in range(256):
+                I = Interp(F, mode="bv", max_paths=200)
+                st = State()
+                bytes_ = [const(v, 8)] + [sym_int(I.vars, "d%d" % k, 8) for k in range(1, 32)]
+                cell = I.heap_alloc(st, arr(bytes_))
+                A = F.adts[adt]
+                fs = [ptr(cell[1], cell[2], (), (const(0, 64), const(32, 64))) if f["name"] == "data" else None for f in A["variants"][0]["fields"]]
+                from .absval import agg as _agg, TOP
+                self_p = I.heap_alloc(st, _agg("struct", adt, 0, [x if x is not None else TOP for x in fs]))
+                outs = I.run(fn, [self_p], st, 0)
+                got = sorted({int_const(rv) if is_int(rv) else None for rv, _s in outs}, key=str)
+                if got != [int(spec_(v))]:
+                    bad = "for first byte %#04x (other bytes arbitrary) %s() answers %s, expected %s" % (v, name, got, spec_(v))
+                    break
+        except Undecided as e:
+            bad = "cannot evaluate: %s" % e
+        R.require(bad is None, fn, name, "%s must look at the first name byte only: %s" % (name, bad), fn.loc(0))
+
+
+@rule("FS1", ["C04", "C05", "C03", "C01"], floor=2,
+      doc="the free-cluster scan examines the entry of the cluster it counts: in find_next_free_cluster every FAT entry is read from the block at a byte offset that starts, for each block, at (cluster * width) % 512 of the cluster the scan stands on - as an index that begins there and moves on by the width, or as chunks of the block *from that offset on*; a scan over the whole block from byte 0 reads the entries of other clusters and hands out clusters that are in use")
+def fs1(F, R):
+    from .rules_walk import slice_window
+    from .mir import success_value
+    fn = F.fn(FATVOL + "::find_next_free_cluster")
+    reads = [(b, t) for b, t in fn.calls() if (callee_of(t) or "").split("::")[-1] in ("read_u16", "read_u32", "from_le_bytes")]
+    R.require(len(reads) >= 2, fn, "reads", "expected the FAT16 and the FAT32 entry read in find_next_free_cluster, found %d" % len(reads), fn.loc(0))
+
+    def starts_at_entry(t_, width, depth=0):
+        """t_ (a byte offset) is, or starts as, (cluster.0 * width) % 512"""
+        t0 = strip_refs(t_)
+        for _k in range(12):            # conversions and their success payloads are transparent
+            if t0[0] == "place" and len(t0[2]) >= 2 and t0[2][0] in ("as:Continue", "as:Ok", "as:Some") and t0[2][1] == "0" and len(t0[2]) == 2:
+                t0 = strip_refs(t0[1])
+            elif t0[0] == "call" and t0[1] and t0[1].split("::")[-1] in ("branch", "map_err", "try_from", "try_into", "from", "into", "ok_or", "ok", "unwrap", "expect") and t0[2]:
+                t0 = strip_refs(t0[2][0])
+            elif t0[0] == "cast":
+                t0 = strip_refs(t0[2])
+            else:
+                break
+        if t0[0] == "bin" and t0[1] == "Rem" and strip_refs(t0[3])[:2] == ("c", 512):
+            m = strip_refs(t0[2])
+            return m[0] == "bin" and m[1] == "Mul" and strip_refs(m[3])[:2] == ("c", width) and "0" in [e for e in (strip_refs(m[2])[2] if strip_refs(m[2])[0] == "place" else ())]
+        if t0[0] == "var" and depth < 4:
+            ds = var_def_terms(fn, t0[1])
+            inits = [d for d in ds if not (strip_refs(d)[0] == "bin" and strip_refs(d)[1] == "Add" and strip_refs(strip_refs(d)[2]) == t0)]
+            steps = [d for d in ds if d not in inits]
+            return len(inits) == 1 and starts_at_entry(inits[0], width, depth + 1) and all(strip_refs(d)[3][:2] == ("c", width) for d in steps)
+        return False
+    for b, t in reads:
+        nm = (callee_of(t) or "").split("::")[-1]
+        width = 2 if nm == "read_u16" or "u16" in t.get("callee_full", "").split("::from_le_bytes")[0][-6:] else 4
+        a = fn.term_of_operand(t["args"][0], b)
+        w = slice_window(a)
+        start = None
+        if w is not None:
+            start = w[1]
+        else:
+            # an item of chunks_exact(width) over a window of the block
+            a0 = strip_refs(a)
+            while a0[0] == "place" and a0[1][0] != "call":
+                a0 = strip_refs(a0[1])
+            nx = a0[1] if a0[0] == "place" else a0
+            if nx[0] == "call" and (nx[1] or "").endswith("Iterator::next"):
+                itv = strip_refs(nx[2][0])
+                for d in (var_def_terms(fn, itv[1]) if itv[0] == "var" else [itv]):
+                    for q in subterms(d):
+                        if q[0] == "call" and q[1] and q[1].endswith(("chunks_exact", "chunks")) and len(q[2]) == 2:
+                            w2 = slice_window(q[2][0])
+                            start = w2[1] if w2 is not None else ("c", 0, None)
+        ok = start is not None and starts_at_entry(start, width)
+        R.require(ok, fn, "entry-of-cluster:%d" % width, "the %d-byte FAT entries the scan tests are not read from (cluster * %d) %% 512 of the block onwards (start: %s): the scan tests entries of other clusters than the one it counts" % (width, width, tstr(start)[:80] if start is not None else None), fn.loc(b))
+
+
+@rule("TB1", ["C04", "C02", "C06", "C03"], floor=3,
+      doc="delete marks exactly the matched slot: delete_entry_in_block stores the 0xE5 tombstone once, at byte i*32 of the block (or byte 0 of the chunk) for the very slot whose name comparison matched, where i numbers *all* 32-byte slots of the block (the enumerate runs directly over chunks_exact(32): no filter / skip / rev in between shifts the numbering); no second store marks a neighbouring slot")
+def tb1(F, R):
+    from .poly import peq, MUL, C
+    fn = F.fn(FATVOL + "::delete_entry_in_block")
+    stores = []
+    for b, i, s_ in fn.stmts():
+        if s_["k"] == "Assign" and s_["p"]["proj"] and any(e[0] in ("index", "cidx") for e in s_["p"]["proj"]):
+            v = fn.term_of_rvalue(s_["rv"], b)
+            stores.append((b, i, s_, v))
+    tomb = [x for x in stores if x[3][:2] == ("c", 0xE5)]
+    R.require(len(tomb) == 1 and len(stores) == 1, fn, "one-store", "delete_entry_in_block must change exactly one byte of the block (the 0xE5 mark of the matched slot); found %d byte stores, %d of them 0xE5" % (len(stores), len(tomb)), fn.loc(stores[0][0], stores[0][1]) if stores else fn.loc(0))
+    nx = [(b, t) for b, t in fn.calls() if (callee_of(t) or "").endswith("Iterator::next")]
+    R.require(len(nx) == 1, fn, "scan", "expected one scan over the block's slots", fn.loc(0))
+    if len(nx) != 1 or len(tomb) != 1:
+        return
+    nb, nt = nx[0]
+    item = ("place", fn.call_term(nt, nb), ("as:Some", "0"))
+    # the iterator: enumerate(chunks_exact(_mut)(block, 32)), nothing in between
+    itv = strip_refs(fn.term_of_operand(nt["args"][0], nb))
+    defs = var_def_terms(fn, itv[1]) if itv[0] == "var" else [itv]
+    shape = False
+    for d in defs:
+        d = strip_refs(d)
+        while d[0] == "call" and d[1] and d[1].endswith("into_iter") and d[2]:
+            d = strip_refs(d[2][0])
+        if d[0] == "call" and d[1] and d[1].endswith("Iterator::enumerate") and d[2]:
+            inner = strip_refs(d[2][0])
+            if inner[0] == "call" and inner[1] and inner[1].endswith(("chunks_exact_mut", "chunks_exact")) and len(inner[2]) == 2 and inner[2][1][:2] == ("c", 32):
+                shape = True
+    R.require(shape and len(defs) == 1, fn, "slot-numbering", "the slot index used for the mark must number all 32-byte slots of the block: enumerate() directly over chunks_exact(32) - a filter / skip / rev in between makes the mark land on another entry", fn.loc(nb))
+    b, i, s_, v = tomb[0]
+    # where: block[i * 32] with i the scan's own index, or item.1[0]
+    pj = s_["p"]["proj"]
+    okpos = False
+    idx = [e for e in pj if e[0] == "index"]
+    if len(idx) == 1:
+        it = fn._local_term(idx[0][1], 0)
+        i_term = ("place", item[1], ("as:Some", "0", "0"))
+        okpos = peq(it, MUL(i_term, C(32)))
+    cidx = [e for e in pj if e[0] == "cidx"]
+    if len(cidx) == 1 and cidx[0][1] == 0 and not cidx[0][3]:
+        base = strip_refs(fn._local_term(s_["p"]["l"], 0))
+        okpos = has_sub(base, lambda q: q == item[1])
+    R.require(okpos, fn, "position", "the 0xE5 mark must go to byte i*32 of the block for the scan's own slot index i", fn.loc(b, i))
+    # for the slot that matched
+    from .ev import guarded_through
+    okm = guarded_through(fn, b, lambda g: g.kind == "bool" and g.truth is True and g.term[0] == "call" and g.term[1] and g.term[1].endswith("OnDiskDirEntry::matches") and has_sub(g.term, lambda q: q == item[1]))
+    R.require(okm, fn, "matched-slot", "the mark is stored without matches(name) having answered true for this slot", fn.loc(b, i))
 
 
 @rule("BM2", ["C04", "C03", "C06", "C09"], floor=10,
